@@ -361,6 +361,16 @@ func (w *World) Service(r *Reg) any {
 		return c
 	}
 	w.mu.Unlock()
+	if r.Kind == KindEmbed && !embedShapeOK(r) {
+		// something added to or changed the dependencies after generation (planted defects,
+		// extra built-ins): the fixed signature no longer fits, use a synthesised constructor
+		r.Kind = KindMakeFunc
+		for _, d := range r.Deps {
+			if d.Key != "" || d.Group != "" || d.Optional || d.Ignored {
+				r.UseIn = true
+			}
+		}
+	}
 	var svc any
 	if r.Form == FormInstance {
 		e, obj := w.newEntry(r, 0, r.Outs[0].Impl, nil)
